@@ -246,3 +246,7 @@ impl<T: Config> SyncTestSession<T> {
         assert_eq!(self.sync_layer.current_frame(), start_frame);
     }
 }
+
+#[cfg(ggrs_verif)]
+#[path = "../verif/st.rs"]
+mod verif_st;
